@@ -61,9 +61,24 @@ def check(chk):
     chk.judge(good, 'C18.next', nf, 'state copied into the message, outcome reset, new plan, then send', 'next-page preparation incomplete or after the send: %s' % [t for t in need if t not in idx])
     # ResultSet
     fn = cl.func('ResultSet.fetch_next_page')
-    top = [st for st in fn.body if isinstance(st, ast.If)]
-    good = len(top) == 1 and src(top[0].test) == 'self.response_future.has_more_pages' and 'self.response_future.start_fetching_next_page()' in src(top[0].body[0]) \
-        and 'self._current_rows = result._current_rows' in src(top[0]) and 'self._current_rows = []' in ' '.join(src(x) for x in top[0].orelse)
+    # path facts, not nesting: the fetch and the take-over of the new rows happen exactly on the paths where has_more_pages held,
+    # every other path leaves the current page empty, and every path does one of the two
+    gfn = CFG(fn)
+
+    def _step(node, c):
+        if node.kind == 'stmt' and node.ast is not None:
+            t = src(node.ast)
+            if 'self.response_future.start_fetching_next_page()' in t:
+                return c + ('fetch',)
+            if t.startswith('self._current_rows = result._current_rows'):
+                return c + ('take',)
+            if t.startswith('self._current_rows = []'):
+                return c + ('empty',)
+        return c
+    flfn = Flow(gfn, (), _step)
+    outs = [(fa.knows('self.response_future.has_more_pages'), c) for fa, c in flfn.at(gfn.exit)]
+    good = bool(outs) and all((k is True and c == ('fetch', 'take')) or (k is False and c == ('empty',)) for k, c in outs) \
+        and any(k is True for k, c in outs) and any(k is False for k, c in outs)
     chk.judge(good, 'C18.resultset', fn, 'fetch_next_page: only under has_more_pages; takes the rows of the new page; else empty', 'fetch_next_page changed')
     nx = cl.func('ResultSet.next')
     g = CFG(nx, may_raise=lambda n: ['StopIteration'] if any(isinstance(x, ast.Call) and src(x.func) == 'next' for x in walk_no_nested(n)) else [])
